@@ -122,6 +122,9 @@ func (cs *ContractSet) parseContractFile(path string, defaultPkg, defaultPkgName
 	lines := strings.Split(string(data), "\n")
 	for ln, raw := range lines {
 		t := strings.TrimSpace(raw)
+		if strings.HasPrefix(t, "// @") {
+			t = "//@" + t[4:] // gofmt rewrites //@ to // @ in doc comments
+		}
 		if !strings.HasPrefix(t, "//@") {
 			continue
 		}
